@@ -37,6 +37,8 @@ type Scenario struct {
 	Roots   []*x509.Certificate // nil => embedded Intel root
 	Resp    map[string]world.Resp
 	Wall    time.Time
+	Extra   []*x509.Certificate // abstracted along with the world; results in ExtraS
+	ExtraS  []core.Sexp
 }
 
 const timeOffset = int64(1) << 37
@@ -414,6 +416,11 @@ func (sc *Scenario) abstract() (worldS, optS core.Sexp) {
 			rs = append(rs, a.certSexp(c))
 		}
 		rootsS = core.Ls(core.Ls(rs...))
+	}
+	// further certificates the caller wants abstracted in the same id space (C19: CA bundles)
+	sc.ExtraS = nil
+	for _, c := range sc.Extra {
+		sc.ExtraS = append(sc.ExtraS, a.certSexp(c))
 	}
 	emb := a.certSexp(embeddedRoot)
 	// CRLs: who signed them
